@@ -280,7 +280,7 @@ Proof.
   destruct (nth o (req c) false); [|reflexivity]. unfold exp_out. now rewrite written_payload.
 Qed.
 
-(* without --discard-unknown-reads the early exit is dead code: routing holds for the current rules too *)
+(* without --discard-unknown-reads the early exit is dead code: routing holds for the legacy rules too *)
 Lemma routing_no_discard : forall rs c l reads outs hist o,
   discard c = false -> fastq_via_str rs = false ->
   run rs c l reads = Done outs hist ->
@@ -544,7 +544,7 @@ Definition w_reads : list read := [(1, 4, 101, 101); (1, 2, 102, 102); (2, 1, 10
 
 Lemma early_exit_refutes_discard_spec :
   valid_input w_cfg w_list = true /\
-  exists outs hist, run current w_cfg w_list w_reads = Done outs hist /\
+  exists outs hist, run legacy w_cfg w_list w_reads = Done outs hist /\
     nth 0 outs None = Some [] /\
     exp_out w_cfg (entries w_list) (assign w_cfg (entries w_list)) w_reads 0 = [104] /\
     l1 w_cfg w_list w_reads (run (rules_of 1) w_cfg w_list w_reads) = false.
@@ -553,7 +553,7 @@ Proof. split; [reflexivity|]. eexists; eexists. vm_compute. repeat split; reflex
 Definition w_list2 : hlist := mkList true true [(1, 1, 7, 1); (1, 1, 7, 1); (2, 2, 7, 1)].
 Lemma dup_assert_refutes_totality :
   valid_input w_cfg w_list2 = true /\
-  run current w_cfg w_list2 w_reads = Fail EAssertDup /\
+  run legacy w_cfg w_list2 w_reads = Fail EAssertDup /\
   l1 w_cfg w_list2 w_reads (run (rules_of 2) w_cfg w_list2 w_reads) = false /\
   l1 w_cfg w_list2 w_reads (run repaired w_cfg w_list2 w_reads) = true.
 Proof. vm_compute. repeat split; reflexivity. Qed.
@@ -562,16 +562,16 @@ Definition w_cfg3 : cfg := mkCfg true [true; true] false false false true.
 Definition w_reads3 : list read := [(1, 4, 101, 101); (2, 4, 103, 103); (3, 5, 104, 104)].
 Lemma hist_rows_refute_counts :
   valid_input w_cfg3 w_list = true /\
-  exists outs rows, run current w_cfg3 w_list w_reads3 = Done outs (Some rows) /\
+  exists outs rows, run legacy w_cfg3 w_list w_reads3 = Done outs (Some rows) /\
     rows = [[4; 0; 1; 1]; [4; 0; 1; 1]; [5; 1; 0; 0]] /\
-    sumcol rows 4 1 = 2 /\ hcount (events current w_cfg3 w_list w_reads3) 1 4 = 1 /\
+    sumcol rows 4 1 = 2 /\ hcount (events legacy w_cfg3 w_list w_reads3) 1 4 = 1 /\
     l1 w_cfg3 w_list w_reads3 (run (rules_of 4) w_cfg3 w_list w_reads3) = false.
 Proof. split; [reflexivity|]. eexists; eexists. vm_compute. repeat split; reflexivity. Qed.
 
 Lemma str_refutes_unmodified : forall c l r,
-  rlibstr r <> rpayload r -> check_list current c l = None ->
+  rlibstr r <> rpayload r -> check_list legacy c l = None ->
   nth 1 (req c) false = true -> kept c (entries l) r = true -> assign c (entries l) (rname r) = 1 ->
-  exists outs hist, run current c l [r] = Done outs hist /\ nth 1 outs None = Some [rlibstr r] /\
+  exists outs hist, run legacy c l [r] = Done outs hist /\ nth 1 outs None = Some [rlibstr r] /\
     exp_out c (entries l) (assign c (entries l)) [r] 1 = [rpayload r].
 Proof.
   intros c l r Hne Hchk Hreq Hk Ha. unfold run. rewrite Hchk. eexists; eexists. split; [reflexivity|].
@@ -586,7 +586,7 @@ Proof.
   rewrite Hpr. cbn [negb].
   assert (Hg : goes_to c 1 1 = true) by reflexivity.
   split.
-  - destruct (discard c && early_exit current); [destruct (_ =? 0)|];
+  - destruct (discard c && early_exit legacy); [destruct (_ =? 0)|];
       unfold out_reads; cbn [filter fst snd map]; rewrite Hg; reflexivity.
   - unfold exp_out. cbn [filter]. unfold kept. 
     assert (Hk' : negb (discard c) || known (entries l) (rname r) = true) by exact Hk.
@@ -651,7 +651,7 @@ Proof.
 Qed.
 
 (* -------------------------------------------------------------- largest block, candidate sets *)
-Definition tc (c : Z) (e : entry) : bool := tagged e && (echrom e =? c).
+Notation tc := on_chrom.
 
 Lemma best_scan_inv : forall all c es cur,
   (forall q k, cur = Some (q, k) -> k = bcount all c q) ->
@@ -728,22 +728,82 @@ Proof.
   destruct Inv as [_ Hall]; [intros ? ? ?; discriminate|]. exact Hall.
 Qed.
 
-Lemma best_block_clear : forall es c p,
-  clearly_largest es c p = true ->
-  (exists e, In e es /\ tc c e = true /\ eps e = p) ->
-  best_block es c = Some p.
+Lemma find_split : forall {A} (p : A -> bool) l x, find p l = Some x ->
+  exists pre post, l = pre ++ x :: post /\ p x = true /\ forall y, In y pre -> p y = false.
 Proof.
-  intros es c p Hcl [e0 [Hin0 [Ht0 Hp0]]].
-  destruct (best_block es c) as [q|] eqn:B.
-  - f_equal. destruct (best_block_some es c q B) as [[e [Hin [Ht Hq]]] Hmax].
-    destruct (Z.eq_dec q p) as [|Hne]; [assumption|exfalso].
-    unfold clearly_largest in Hcl. rewrite forallb_forall in Hcl. specialize (Hcl e Hin).
-    unfold tc in Ht. apply andb_true_iff in Ht as [Ht1 Ht2]. rewrite Ht1, Ht2, Hq in Hcl.
-    assert (Hqp : (q =? p) = false) by now apply Z.eqb_neq. rewrite Hqp in Hcl. cbn in Hcl.
-    apply andb_true_iff in Hcl as [Hlt _]. apply Nat.ltb_lt in Hlt.
-    specialize (Hmax e0 Hin0 Ht0). rewrite Hp0 in Hmax. lia.
-  - rewrite (best_block_none es c B e0 Hin0) in Ht0. discriminate.
+  intros A p l. induction l as [|a l IH]; intros x H; cbn [find] in H; [discriminate|].
+  destruct (p a) eqn:E.
+  - inversion H; subst. exists [], l. split; [reflexivity|]. split; [assumption|]. intros y [].
+  - destruct (IH x H) as [pre [post [-> [Hx Hpre]]]]. exists (a :: pre), post. split; [reflexivity|].
+    split; [assumption|]. intros y [->|Hy]; [assumption|now apply Hpre].
 Qed.
+
+(* once the running maximum has reached the bound M it is never replaced *)
+Lemma best_scan_keep : forall all c M es q,
+  (forall e, In e es -> tc c e = true -> (bcount all c (eps e) <= M)%nat) ->
+  best_scan all es c (Some (q, M)) = Some (q, M).
+Proof.
+  intros all c M es q. induction es as [|e es IH]; intros Hle; [reflexivity|].
+  cbn [best_scan]. fold (tc c e). destruct (tc c e) eqn:T.
+  - assert (L : (M <? bcount all c (eps e))%nat = false).
+    { apply Nat.ltb_ge. apply Hle; [now left|assumption]. }
+    rewrite L. apply IH. intros e' He'. apply Hle. now right.
+  - apply IH. intros e' He'. apply Hle. now right.
+Qed.
+
+(* below the bound, the first line that reaches it takes over *)
+Lemma best_scan_first : forall all c M pre e0 post cur,
+  (cur = None \/ exists q k, cur = Some (q, k) /\ (k < M)%nat) ->
+  (forall e, In e pre -> tc c e = true -> (bcount all c (eps e) < M)%nat) ->
+  tc c e0 = true -> bcount all c (eps e0) = M ->
+  best_scan all (pre ++ e0 :: post) c cur = best_scan all post c (Some (eps e0, M)).
+Proof.
+  intros all c M pre. induction pre as [|e pre IH]; intros e0 post cur Hcur Hpre T0 M0.
+  - cbn [app best_scan]. fold (tc c e0). rewrite T0, M0.
+    destruct Hcur as [->|[q [k [-> Hk]]]]; [reflexivity|].
+    assert ((k <? M)%nat = true) as -> by now apply Nat.ltb_lt. reflexivity.
+  - cbn [app best_scan]. fold (tc c e). apply IH; try assumption.
+    + destruct (tc c e) eqn:T; [|assumption].
+      assert (Hlt : (bcount all c (eps e) < M)%nat) by (apply Hpre; [now left|assumption]).
+      right. destruct Hcur as [->|[q [k [-> Hk]]]].
+      * eauto.
+      * destruct (k <? bcount all c (eps e))%nat; eauto.
+    + intros e' He'. apply Hpre. now right.
+Qed.
+
+Lemma is_max_block_spec : forall es c p, is_max_block es c p = true <->
+  forall e, In e es -> tc c e = true -> (bcount es c (eps e) <= bcount es c p)%nat.
+Proof.
+  intros es c p. unfold is_max_block. rewrite forallb_forall. split.
+  - intros H e Hin T. specialize (H e Hin). rewrite T in H. cbn in H. now apply Nat.leb_le.
+  - intros H e Hin. destruct (tc c e) eqn:T; [|reflexivity]. cbn. apply Nat.leb_le. now apply H.
+Qed.
+
+(* the model's choice (Counter.most_common(1)) is the first-inserted block of maximal size *)
+Lemma best_block_first_max : forall es c, best_block es c = first_max es c.
+Proof.
+  intros es c. unfold first_max.
+  destruct (find (fun e => tc c e && is_max_block es c (eps e)) es) as [e0|] eqn:F.
+  - apply find_split in F as [pre [post [Hes [H0 Hpre]]]].
+    apply andb_true_iff in H0 as [T0 Mx]. rewrite is_max_block_spec in Mx.
+    unfold best_block. cbn [option_map]. rewrite Hes at 2.
+    rewrite (best_scan_first es c (bcount es c (eps e0)) pre e0 post None); try auto.
+    + rewrite best_scan_keep; [reflexivity|]. intros e He T. apply Mx; [|assumption].
+      rewrite Hes. apply in_or_app. right. now right.
+    + intros e He T. specialize (Hpre e He). cbn in Hpre. rewrite T in Hpre. cbn [andb] in Hpre.
+      assert (Hin : In e es) by (rewrite Hes; apply in_or_app; now left).
+      destruct (Nat.lt_ge_cases (bcount es c (eps e)) (bcount es c (eps e0))) as [|Hge]; [assumption|exfalso].
+      assert (is_max_block es c (eps e) = true); [|congruence].
+      apply is_max_block_spec. intros e' He' T'. specialize (Mx e' He' T'). lia.
+  - cbn [option_map]. destruct (best_block es c) as [q|] eqn:B; [exfalso|reflexivity].
+    destruct (best_block_some es c q B) as [[e [Hin [T Hq]]] Hmax].
+    pose proof (find_none _ _ F e Hin) as Hn. cbn in Hn. rewrite T in Hn. cbn [andb] in Hn.
+    assert (is_max_block es c (eps e) = true); [|congruence].
+    apply is_max_block_spec. rewrite Hq. exact Hmax.
+Qed.
+
+Lemma in_first_max_best : forall es e, in_first_max es e = in_best es e.
+Proof. intros es e. unfold in_first_max, in_best. now rewrite best_block_first_max. Qed.
 
 Lemma cand_untagged : forall c es e, tagged e = false -> cand_entry c es e = [0].
 Proof. intros c es e H. unfold cand_entry. now rewrite H. Qed.
@@ -754,25 +814,13 @@ Proof. intros c es e H1 H2. unfold cand_entry. now rewrite H1, H2. Qed.
 Lemma cand_in_best : forall c es e, In e es -> tagged e = true -> only_largest c = true ->
   in_best es e = true -> In (ehap e) (cand_entry c es e).
 Proof.
-  intros c es e Hin Ht Hl Hb. unfold cand_entry. rewrite Ht, Hl. cbn [negb].
-  destruct (clearly_largest es (echrom e) (eps e)) eqn:C; [now left|].
-  destruct (has_clear es (echrom e)) eqn:H; [|now left].
-  exfalso. unfold has_clear in H. apply existsb_exists in H as [e' [Hin' H]].
-  apply andb_true_iff in H as [H Hcl]. 
-  assert (Hb' : best_block es (echrom e) = Some (eps e')).
-  { apply best_block_clear; [assumption|]. exists e'. unfold tc. auto. }
-  unfold in_best in Hb. rewrite Hb' in Hb. apply Z.eqb_eq in Hb. rewrite Hb in C. congruence.
+  intros c es e Hin Ht Hl Hb. unfold cand_entry. rewrite Ht, Hl, in_first_max_best, Hb. now left.
 Qed.
 
 Lemma cand_not_in_best : forall c es e, In e es -> tagged e = true -> only_largest c = true ->
   in_best es e = false -> In 0 (cand_entry c es e).
 Proof.
-  intros c es e Hin Ht Hl Hb. unfold cand_entry. rewrite Ht, Hl. cbn [negb].
-  destruct (clearly_largest es (echrom e) (eps e)) eqn:C.
-  - exfalso. assert (Hb' : best_block es (echrom e) = Some (eps e)).
-    { apply best_block_clear; [assumption|]. exists e. unfold tc. rewrite Ht, Z.eqb_refl. auto. }
-    unfold in_best in Hb. rewrite Hb', Z.eqb_refl in Hb. discriminate.
-  - destruct (has_clear es (echrom e)); [now left | right; now left].
+  intros c es e Hin Ht Hl Hb. unfold cand_entry. rewrite Ht, Hl, in_first_max_best, Hb. now left.
 Qed.
 
 Lemma entries_of_In : forall es n e, In e (entries_of es n) <-> In e es /\ ename e = n.
@@ -1100,8 +1148,7 @@ Lemma cand_entry_nonempty : forall c es e, cand_entry c es e <> [].
 Proof.
   intros c es e. unfold cand_entry.
   destruct (negb (tagged e)); [discriminate|]. destruct (negb (only_largest c)); [discriminate|].
-  destruct (clearly_largest es (echrom e) (eps e)); [discriminate|].
-  destruct (has_clear es (echrom e)); discriminate.
+  destruct (in_first_max es e); discriminate.
 Qed.
 
 Lemma cands_nonempty : forall c es n, cands c es n <> [].
